@@ -307,6 +307,53 @@ static void c17_disk_full(C17Case& c, Rng& rng, bool thorough, Stats& st, int ca
   }
 }
 
+
+// a TRANSIENT write fault (one write call fails, the stream works again afterwards - ENOSPC that clears, a flaky user
+// stream): whatever ends up in the stream is an incomplete file and must not load into rules that misbehave
+static void c17_transient_point(const C17Case& c, int64_t k, std::string& save_rc, std::string& res, IsoResult& r, int64_t* total_calls = nullptr) {
+  r = sim_isolate([&] {
+    CompileResult cr = compile_rules(c.spec);
+    if (!cr.rules) { iso_emit("S compile-failed\n"); return; }
+    MemStream ms; ms.fail_write_once_at = k; YR_STREAM s = ms.stream();
+    int src = yr_rules_save_stream(cr.rules, &s);
+    iso_emit(std::string("S ") + yr_error_name(src) + " calls=" + std::to_string(ms.write_calls) + "\n");
+    if (src == ERROR_SUCCESS && k < ms.write_calls) { iso_emit("save-reported-success-despite-failed-write\n"); return; }
+    YR_RULES* loaded = NULL; int rc = load_rules(ms.data, &loaded, 0);
+    if (rc != ERROR_SUCCESS) { iso_emit(std::string("rejected:") + yr_error_name(rc) + "\n"); return; }
+    iso_emit("L\n");
+    std::string t = scan_traces(loaded, c.bufs); yr_rules_destroy(loaded);
+    iso_emit(t == c.ref_traces ? "loaded:same\n" : "loaded:different\n");
+  }, 60);
+  size_t p = 0; while (p < r.out.size()) { size_t e = r.out.find('\n', p); if (e == std::string::npos) break; std::string ln = r.out.substr(p, e - p); if (ln.rfind("S ", 0) == 0) { save_rc = ln.substr(2, ln.find(" calls=") - 2); if (total_calls) *total_calls = atoll(ln.substr(ln.find("calls=") + 6).c_str()); } else if (ln != "L") res = ln; else res = "loaded-then-died"; p = e + 1; }
+}
+static std::string c17_judge_transient(int64_t k, int64_t total, const std::string& save_rc, const std::string& res, const IsoResult& r, std::string& klass, std::string& detail) {
+  std::string where = k == 0 ? "header" : (total > 0 && k >= total - 2) ? "last-writes" : "middle";
+  if (r.kind != 0 && save_rc.empty()) return "";
+  std::string at = "write call " + std::to_string(k) + " failed once (yr_rules_save_stream returned " + save_rc + "): ";
+  if (res == "save-reported-success-despite-failed-write") { klass = "failed-write-unreported"; detail = at + "success reported"; return "transient|" + where + "|save-returned-success"; }
+  if (r.kind != 0 || res == "loaded-then-died") { klass = "crash-after-load"; detail = at + "the stream's content loaded and the rules then crashed: " + r.err.substr(0, 1200); std::string cs = sim_crash_signature(r); return "transient|" + where + "|outcome=crash-after-load"; }
+  if (res == "loaded:different") { klass = "incomplete-file-loaded"; detail = at + "the stream's content loaded successfully into rules that behave differently"; return "transient|" + where + "|outcome=loaded-different"; }
+  if (res == "loaded:same") { klass = "incomplete-file-loaded"; detail = at + "the incomplete stream content was accepted by yr_rules_load_stream (it happens to behave like the original)"; return "transient|" + where + "|outcome=load-success"; }
+  return "";
+}
+static void c17_transient(C17Case& c, Rng& rng, bool thorough, Stats& st, int case_idx) {
+  std::string save_rc, res; IsoResult r; int64_t total = 0;
+  c17_transient_point(c, 1LL << 40, save_rc, res, r, &total);     // fault-free: learns the number of write calls
+  if (total <= 0) return;
+  std::set<int64_t> ks{0, 1, total - 1, total - 2, total / 2};
+  int extra = thorough ? 60 : 10; for (int i = 0; i < extra; i++) ks.insert((int64_t) rng.below((uint64_t) total));
+  std::set<std::string> reported;
+  for (int64_t k : ks) {
+    if (k < 0 || k >= total) continue;
+    save_rc.clear(); res.clear(); int64_t t2 = 0;
+    c17_transient_point(c, k, save_rc, res, r, &t2);
+    st.runs++; st.c["faults_fired.transient_write_fault"]++; st.c["transient_write." + (res.empty() ? std::string("died") : res.substr(0, res.find(':') == std::string::npos ? res.size() : res.find(':')))]++;
+    Hash64 h; h.add("transient"); h.addu(case_idx); h.addu(k); st.hash(h.h);
+    std::string klass, detail; std::string sig = c17_judge_transient(k, total, save_rc, res, r, klass, detail);
+    if (!sig.empty()) { st.c["viol." + klass]++; if (reported.insert(sig).second) emit_violation("C17", klass, sig, detail, c17_replay(c, "transient", (size_t) k, nullptr)); }
+  }
+}
+
 // ======================================================================= C08 =
 struct C08Out { std::string image, image_again, image_gen2, traces_before, traces_after_save, traces_loaded, traces_gen2; int save_rc = 0, load_rc = 0, gen2_save_rc = -1, gen2_load_rc = -1; int64_t writes = 0; };
 
@@ -463,6 +510,37 @@ static void c08_run_case(const LabCase& lc, Rng& rng, bool thorough, Stats& st, 
       else if (res != "ok") report("roundtrip-mismatch", "history=" + hs + "|" + res, res, rp);
     }
   }
+  // (5) rules disabled before the save and enabled again afterwards: the original and the loaded copy, driven by the
+  // same calls, must agree before and after re-enabling, and after re-enabling both must equal the untouched rules
+  if (only_kind.empty() || only_kind == "disable-save-enable") {
+    uint64_t pick = only_kind.empty() ? (rng.next() & 0x7fffffffffffULL) : (uint64_t) ra;
+    IsoResult r = sim_isolate([&] {
+      CompileResult cr = compile_rules(lc.spec); if (!cr.rules) { iso_emit("compile-failed\n"); return; }
+      std::string untouched = scan_traces(cr.rules, bufs);
+      auto toggle = [&](YR_RULES* rs, bool enable) { YR_RULE* rule; int k = 0, n = 0; yr_rules_foreach(rs, rule) { uint64_t hsh = sim_mix64(pick ^ (uint64_t) k * 0x9e3779b97f4a7c15ULL); k++; if (hsh % 3 != 0) continue; if (enable) yr_rule_enable(rule); else yr_rule_disable(rule); n++; } return n; };
+      int nd = toggle(cr.rules, false);
+      std::string orig_disabled = scan_traces(cr.rules, bufs);
+      std::string image; int rc; save_rules(cr.rules, image, &rc);
+      if (rc != ERROR_SUCCESS) { iso_emit(std::string("save-failed:") + yr_error_name(rc) + "\n"); yr_rules_destroy(cr.rules); return; }
+      YR_RULES* l = NULL; rc = load_rules(image, &l, 0);
+      if (rc != ERROR_SUCCESS) { iso_emit(std::string("load-failed:") + yr_error_name(rc) + "\n"); yr_rules_destroy(cr.rules); return; }
+      std::string loaded_disabled = scan_traces(l, bufs);
+      toggle(cr.rules, true); toggle(l, true);
+      std::string orig_enabled = scan_traces(cr.rules, bufs), loaded_enabled = scan_traces(l, bufs);
+      yr_rules_destroy(cr.rules); yr_rules_destroy(l);
+      iso_emit("N " + std::to_string(nd) + "\n");
+      if (loaded_disabled != orig_disabled) iso_emit("loaded-differs-while-disabled\n");
+      else if (orig_enabled != untouched) iso_emit("original-differs-after-reenabling\n");
+      else if (loaded_enabled != orig_enabled) iso_emit("loaded-differs-after-reenabling\n");
+      else iso_emit("ok\n");
+    }, 120);
+    st.runs++; st.c["history.disable_save_load_enable"]++;
+    Hash64 h; h.add("dse"); h.addu(idx); h.addu(pick); st.hash(h.h);
+    J rp = c08_replay(lc, bufs, "disable-save-enable", (int64_t) pick, 0, 0);
+    std::string res; { size_t p = 0; while (p < r.out.size()) { size_t e = r.out.find('\n', p); if (e == std::string::npos) break; std::string ln = r.out.substr(p, e - p); if (ln.rfind("N ", 0) == 0) st.c["rules_disabled_before_save"] += atoll(ln.c_str() + 2); else res = ln; p = e + 1; } }
+    if (r.kind != 0) report("crash", "history=disable-save-enable|" + sim_crash_signature(r), r.err.substr(0, 2000), rp);
+    else if (res != "ok") report("roundtrip-mismatch", "history=disable-save-enable|" + res, res, rp);
+  }
 }
 
 // ======================================================================= C19 =
@@ -581,6 +659,11 @@ int main(int argc, char** argv) {
         isolate_batch(1, [&](size_t) { return c17_try_load(cc, cc.image.substr(0, n), false); }, [&](size_t, const std::string* out, const IsoResult* crash) { sig = c17_judge_trunc(l, n, out, crash, klass, detail); });
         // what the accepted rules then do when used (detail only)
         if (!sig.empty()) isolate_batch(1, [&](size_t) { return c17_try_load(cc, cc.image.substr(0, n), true); }, [&](size_t, const std::string* out, const IsoResult* crash) { detail += out ? " [when scanned: " + *out + "]" : " [when scanned: " + sim_crash_signature(*crash) + "]"; });
+      } else if (kind == "transient") {
+        int64_t k = c["n"].num(); std::string save_rc, res; IsoResult r; int64_t total = 0;
+        { std::string s0, r0; IsoResult i0; c17_transient_point(cc, 1LL << 40, s0, r0, i0, &total); }
+        c17_transient_point(cc, k, save_rc, res, r);
+        sig = c17_judge_transient(k, total, save_rc, res, r, klass, detail);
       } else if (kind == "diskfull") {
         size_t n = (size_t) c["n"].num(); std::string save_rc, res; IsoResult r;
         c17_disk_full_point(cc, n, save_rc, res, r);
@@ -623,6 +706,7 @@ int main(int argc, char** argv) {
       C17Case c; if (!c17_prepare(c, lc)) { emit_note("c17: case does not compile: " + lc.desc); continue; }
       c17_run_case(c, rng, thorough, st, i);
       c17_disk_full(c, rng, thorough, st, i);
+      c17_transient(c, rng, thorough, st, i);
     } else if (mode == "c08") { std::string onlyk = args.get("only", ""); if (onlyk.empty()) c08_run_case(lc, rng, thorough, st, i); else c08_run_case(lc, rng, thorough, st, i, onlyk, (int64_t) rng.range(1, 255), 8 * (int64_t) rng.range(1, 64), 0); }
     else c19_run_case(lc, rng, thorough, st, i);
     st.c["cases"]++;
